@@ -85,6 +85,21 @@ type conn struct {
 	closed bool
 	rdl    time.Time
 	wdl    time.Time
+	// Like net.netFD (fdMutex): Close marks the connection closed at once, but the
+	// descriptor itself is released only when the operations that are in flight have
+	// returned, so an operation can never act on a descriptor number that was reused.
+	inflight     int
+	closePending bool
+}
+
+func (c *conn) enter() { c.inflight++ }
+
+func (c *conn) leave() {
+	c.inflight--
+	if c.inflight == 0 && c.closePending {
+		c.closePending = false
+		kernel.K().Close(c.fd)
+	}
 }
 
 type rawConn struct{ c *conn }
@@ -93,6 +108,8 @@ func (r rawConn) Control(f func(fd uintptr)) error {
 	if r.c.closed {
 		return std.ErrClosed
 	}
+	r.c.enter()
+	defer r.c.leave()
 	f(uintptr(r.c.fd))
 	return nil
 }
@@ -125,7 +142,13 @@ func waitDeadline(reason string, dl time.Time, cond func() bool) {
 }
 
 func (c *conn) Read(b []byte) (int, error) {
+	c.enter()
+	defer c.leave()
 	for {
+		if c.closed {
+			return 0, opErr("read", std.ErrClosed)
+		}
+		simrt.Yield()
 		if c.closed {
 			return 0, opErr("read", std.ErrClosed)
 		}
@@ -151,8 +174,14 @@ func (c *conn) Read(b []byte) (int, error) {
 }
 
 func (c *conn) Write(b []byte) (int, error) {
+	c.enter()
+	defer c.leave()
 	total := 0
 	for len(b) > 0 {
+		if c.closed {
+			return total, opErr("write", std.ErrClosed)
+		}
+		simrt.Yield()
 		if c.closed {
 			return total, opErr("write", std.ErrClosed)
 		}
@@ -182,6 +211,10 @@ func (c *conn) Close() error {
 		return opErr("close", std.ErrClosed)
 	}
 	c.closed = true
+	if c.inflight > 0 {
+		c.closePending = true
+		return nil
+	}
 	return kernel.K().Close(c.fd)
 }
 
